@@ -121,6 +121,19 @@ func (s *Server) Now() int64 {
 }
 func (s *Server) OpenConns() int            { return int(atomic.LoadInt32(&s.open)) }
 func (s *Server) Accepted() int             { return int(atomic.LoadInt32(&s.accepted)) }
+
+// OpenConnIDs lists the ids (as PipeID / Req.Conn report them) of the connections that are
+// currently being served, ascending.
+func (s *Server) OpenConnIDs() []int {
+	s.mu.Lock()
+	ids := make([]int, 0, len(s.conns))
+	for id := range s.conns {
+		ids = append(ids, id)
+	}
+	s.mu.Unlock()
+	sort.Ints(ids)
+	return ids
+}
 func (s *Server) SetFault(seq int, f Fault) { s.mu.Lock(); s.faults[seq] = f; s.mu.Unlock() }
 func (s *Server) ClearFaults()              { s.mu.Lock(); s.faults = map[int]Fault{}; s.mu.Unlock() }
 func (s *Server) Seq() int                  { s.mu.Lock(); defer s.mu.Unlock(); return s.seq }
